@@ -23,7 +23,8 @@ theorem addLf_adv {s s1 : St} {u : Unit} (h : addLf s = .ok (u, s1)) : Adv s s1 
   · simp [hl, pure] at h
     rw [← h]; exact Adv.refl s
   · simp [hl, addStartLine, Tr.modify] at h
-    rw [← h]; exact ⟨rfl, rfl, rfl, rfl, rfl, rfl, rfl, rfl, rfl, by simp⟩
+    rw [← h]; exact ⟨rfl, rfl, rfl, rfl, rfl, rfl, rfl, rfl, rfl, by simp,
+      ⟨⟨rfl, rfl, rfl, rfl, rfl, rfl, rfl, rfl, rfl⟩, [.raw ")", .raw "", .raw "(set LF=^"], rfl, by simp [lfLine]⟩⟩
 
 theorem stringToString_ok {lit t : String} {s s1 : St} (h : stringToString lit s = .ok (t, s1)) :
     t = escapeB lit ∧ Adv s s1 [] 0 := by
